@@ -62,6 +62,12 @@ struct Event {
   int64_t tick = 0;         // disk clock when it happened
   uint64_t op_index = 0;    // vfs::op_count when it happened
   std::vector<int> running; // kWait: commands running when ninja blocked
+  // jobserver (seam S6a): kWait: tokens readable in the pool when ninja blocked / whether it watches the pool;
+  // kStart: explicit tokens ninja holds (read and not written back) right after the start; kToken: status +1 = the
+  // external client returned a token, -1 = it took one
+  int avail = -1;
+  bool watch = false;
+  int held = -1;
 };
 
 struct RunCmd {
@@ -98,6 +104,11 @@ struct RunConfig {
   int max_subset_running = 3;               // all subsets only up to this many running commands
   int step_horizon = 400;                   // max waits per invocation
   int64_t crash_at = -1, crash_tear = -1, fail_at = -1;
+  // Jobserver pool (seam S6a): a real FIFO owned by the harness.  js_tokens < 0: no jobserver.
+  int js_tokens = -1;      // tokens in the pool when ninja starts (the implicit slot is not one of them)
+  int js_ext_held = 0;     // tokens another client of the same pool holds at that moment (it may return them)
+  int js_ext_max = 0;      // how many tokens that client may hold at most
+  int js_moves = 0;        // how many times it may take or return a token during the invocation
   // Edits applied by the environment while a command runs: (trigger cmd id, path, new content).
   std::vector<std::tuple<std::string, std::string, std::string>> edits_during;
 };
@@ -114,7 +125,18 @@ struct RunResult {
   uint64_t ops = 0;           // mutating vfs ops performed
   std::vector<int> choices, arity, cost;
   int max_running = 0;
+  int js_total = -1;          // jobserver: tokens in existence (pool + external client) when ninja started
+  int js_final = -1;          // ... and when it had gone (pool + external client): every token ninja took must be back
+  int js_spins = 0;           // ninja came back into ppoll() on a readable, watched pool without having taken a token or
+                              // started anything: it is spinning until a running command ends (observation, not a verdict)
 };
+
+/// Jobserver seam (simproc.cc): the pool is a real FIFO that ninja's own PosixJobserverClient opens.
+void JsBegin(const RunConfig& cfg);       // create/refill the pool, export MAKEFLAGS
+void JsEnd(RunResult* res);               // count the tokens, close the descriptors the invocation left open
+bool JsOn();
+int JsAvail();
+int JsNinjaHolds();
 
 /// Run one ninja invocation (real_main of the tree's ninja.cc) against disk `d`.
 RunResult RunNinja(vfs::Disk* d, const RunConfig& cfg, const std::vector<int>& choice_prefix);
@@ -125,6 +147,9 @@ struct Cur {
   const RunConfig* cfg = nullptr;
   Chooser* ch = nullptr;
   int waits = 0;
+  bool last_token_wake = false;   // the previous wait ended with "a token is available"
+  size_t cmds_at_wake = 0;
+  int avail_at_wake = 0;
   std::vector<bool> edit_done;
 };
 extern Cur g_cur;
